@@ -19,8 +19,6 @@ Definition c19_spec_eff := spec_eff.
 Definition c19_spec_invalid (f : fs) (fl : flags) : bool := spec_invalid f (spec_eff f fl).
 Definition c19_generate_ok := generate_ok_b.
 Definition c19_init_ok := init_ok_b.
-Definition c19_kf_file_invalid := kf_file_invalid.
-Definition c19_kf_verbose_file_only := kf_verbose_file_only.
 Definition c19_init_target := init_target.
 Definition c19_fs_get := fs_get.
 Definition c19_norm := norm.
@@ -28,5 +26,5 @@ Definition c19_norm := norm.
 Extraction Language OCaml.
 Extraction "tt_c19.ml" c19_save c19_load c19_preserved c19_roundtrip c19_lib_ok
   c19_saveable c19_normalise c19_generate c19_init c19_spec_eff
-  c19_spec_invalid c19_generate_ok c19_init_ok c19_kf_file_invalid c19_kf_verbose_file_only
+  c19_spec_invalid c19_generate_ok c19_init_ok
   c19_init_target c19_fs_get c19_norm.
